@@ -1,9 +1,22 @@
 (* C08: which annotated items use something typeshare documents as unsupported (declarative, over
-   the syn-level AST), and the finding classes of the unchanged tree. *)
-From Coq Require Import String.
+   the syn-level AST).  The two finding classes of the unchanged tree (C08-const-expr,
+   C08-flatten-variant) are fixed in /repo: there is no carve-out left. *)
+From Coq Require Import String BinInt.
 From TS Require Import Model.Str Model.Unicode Model.Syntax Model.Attrs Spec.Serde Spec.TargetOsRule.
 
 Definition cls8 (s:string) : option string := Some s.
+
+(* the integer a const initialiser denotes when it is an integer literal, possibly parenthesised and /
+   or negated - the only initialisers typeshare can write out; None: not such a constant
+   (a string / float / bool literal, 1 + 2, foo(7), 7 as u32, another const ...) *)
+Fixpoint const_value8 (e : cexpr) : option Z :=
+  match e with
+  | CELit (CInt (Some z)) => Some z
+  | CELit _ => None
+  | CEParen x => const_value8 x
+  | CENeg x => match const_value8 x with Some z => Some (Z.opp z) | None => None end
+  | CEOther => None
+  end.
 
 Section U.
 Variable uc : unicode.
@@ -60,25 +73,12 @@ Definition item_unsupported (it : item) : bool :=
        else match serde_nv attrs (lit "tag"), serde_nv attrs (lit "content") with None, None => false | _, _ => true end)
     end
   | IType attrs _ _ t => type_bad attrs t
-  | IConst attrs _ t e => type_bad attrs t || match ce_plain e with Some _ => false | None => true end
+  | IConst attrs _ t e => type_bad attrs t || match const_value8 e with Some _ => false | None => true end
   | _ => false
   end.
 
-(* finding classes: unsupported uses the unchanged tree lets through *)
-Definition known_C08 (it : item) : option string :=
-  match it with
-  | IConst _ _ _ e =>
-    match ce_plain e, ce_first_lit e with
-    | None, Some (CInt (Some _)) => cls8 "C08-const-expr"     (* -5, 1 + 2, foo(7): first literal taken *)
-    | _, _ => None
-    end
-  | IEnum _ _ _ vs =>
-    if existsb (fun v => negb (skipped8 (v_attrs v)) &&
-                         match v_fields v with
-                         | FNamed l => existsb (fun f => negb (skipped8 (f_attrs f)) && bare_flatten (f_attrs f)) l
-                         | _ => false
-                         end) vs
-    then cls8 "C08-flatten-variant" else None
-  | _ => None
-  end.
+(* finding classes: none left.  C08-const-expr (the first literal anywhere in the initialiser was
+   taken: -5 -> 5, 1 + 2 -> 1, foo(7) -> 7) and C08-flatten-variant (serde(flatten) on a struct-variant
+   field was accepted) are fixed in /repo; kept as the constant the driver reports. *)
+Definition known_C08 (it : item) : option string := None.
 End U.
